@@ -311,6 +311,26 @@ def observe_collapse(ds, names, ref):
         mats = [m for m in store if np.isfinite(m).any() and np.nanmin(m) >= UBASE]
         o["mat"] = mats[0] if len(mats) == 1 else None
         o["nmats"] = len(mats)
+        if ref is None:
+            # history: calls of collapse() in one process must not influence each other -- after the call above (custom
+            # function `rec`) and a call that overrides the NAME std, a plain call must give the plain statistics again
+            o["history"] = None
+            with warnings.catch_warnings():
+                warnings.simplefilter("ignore")
+                collapse(ds.copy(deep=True), collapser={"std": lambda m, a: np.nanmax(m, axis=a)})
+                plain = collapse(ds.copy(deep=True))
+            extra = sorted(str(n) for n in plain.variables if str(n).endswith("_rec"))
+            if extra:
+                o["history"] = f"a plain collapse() after a call with a custom collapser `rec` still produces {extra[:3]}"
+            else:
+                for v in ("u", "w", "k"):
+                    for f in ("mean", "std", "number"):
+                        name = f"{other}/{v}_{f}"
+                        if name in out and name in plain and "collocation" in out[name].dims:
+                            a, b = np.asarray(out[name].values, dtype=float), np.asarray(plain[name].values, dtype=float)
+                            if a.shape != b.shape or not np.array_equal(a, b, equal_nan=True):
+                                o["history"] = (f"{name} of a plain collapse() differs after earlier calls with custom collapsers "
+                                                f"(first call {a.ravel()[:3].tolist()}, now {b.ravel()[:3].tolist()})")
         return o
     except Exception as e:  # noqa
         return err(e)
@@ -409,6 +429,8 @@ def judge_dataset(ctx, case, ds, names, obs, val, label):
             continue
         if o["root"]:
             ctx.fail(kind, f"{label}: collapse(reference={o['ref']}): {o['root']}", case=case, signature="collapse-root")
+        if o.get("history"):
+            ctx.fail(kind, f"{label}: collapse(reference={o['ref']}): {o['history']}", case=case, signature="collapse-history")
         other_ids = obs["ids"][o["other"]]
         rowpos = [obs["pos"][o["ref"]][i] for i in o["ref_ids"]]     # output row -> stored reference point
         # the bin matrix as the custom collapser saw it
